@@ -308,6 +308,9 @@ def rand_behaviour(rng, idx, gloss, cls, force=None):
     if "Tridimensional" not in b.hyps and rng.random() < 0.7:
         b.hyps = sorted(set(b.hyps[:-1] + ["Tridimensional"]), key=HYP_ORDER.index)
     used = set()
+    if force:
+        b.unit_system = True
+        used.add("EquivalentPlasticStrain")
     spec_h = rng.choice(b.hyps) if len(b.hyps) > 1 and rng.random() < 0.6 else None
 
     def mk(group, names, types, tensor=False, arr=True, hyp_ok=True):
@@ -339,6 +342,13 @@ def rand_behaviour(rng, idx, gloss, cls, force=None):
         fp = Var("pfl", "real", 1)
         fp.dflt = ["3.1415926535897931"]
         b.pars.append(fp)
+        gv = Var("gps", "real", 1, "EquivalentPlasticStrain", "glossary")     # physical bounds inherited from the glossary
+        gv.allow_phys = False
+        b.svs.append(gv)
+        ga = Var("gpo", "real", 1, "Porosity", "glossary")
+        ga.allow_phys = False
+        used.add("Porosity")
+        b.asvs.append(ga)
     for v in b.mps + b.svs + b.asvs + b.esvs + b.pars:
         if v.tid == 0:           # bounds of tensorial variables apply to components: not generated
             if v in b.pars:
@@ -459,7 +469,7 @@ def parse_symbols(text):
         elif ty in ("double",):
             out[name] = "r:%s" % bits(float(val))
         elif ty == "long double":
-            mm = re.match(r"static_cast<long double>\((.*)\)$", val)
+            mm = re.match(r"static_cast<long double>\((.*?)L?\)$", val)
             out[name] = "r:%s" % bits(float(mm.group(1))) if mm else "?%s" % val
         elif ty.startswith("const char*"):
             out[name] = "t:%s" % val.strip('"')
@@ -795,14 +805,23 @@ def run(ck):
     for m in mps[:4]:
         mfront_query_matprop(ck, m, gendir, note, hist, stats)
 
+    viols = {k: v for k, v in groups.items() if v[0] == "viol" and k.startswith("elm:")}
     for key, (kind, what, rep) in sorted(groups.items()):
         found = kind == "viol"
         if kind == "text":
-            # a text-level difference is a failing input of the property when the library answers wrongly for it too
-            wit = [k for k, (kk, _, r) in groups.items() if kk == "viol" and same_subject(r, rep)]
+            # a text-level difference is a failing input of the property once a compiled library answers wrongly for the same reason
+            cat = key.rsplit(":", 1)[-1] if not key.endswith("unexpected-symbol") else key.split(":")[-2]
+            want = {"parameter-default": ["elm:default:value", "elm:mp-default:value"],
+                    "bounds": ["elm:bounds:value", "elm:mp-bounds:value", "elm:bounds:presence", "elm:mp-bounds:presence"],
+                    "physical-bounds": ["elm:bounds:presence", "elm:mp-bounds:presence", "elm:bounds:value", "elm:mp-bounds:value"],
+                    "bounds-array-element": ["elm:bounds-array-element:presence"],
+                    "physical-bounds-array-element": ["elm:bounds-array-element:presence"]}.get(cat, [])
+            if "material-property" in key:
+                want = [w for w in want if ":mp-" in w] + [w for w in want if ":mp-" not in w]
+            wit = [w for w in want if w in viols]
             found = bool(wit)
             if found:
-                rep = dict(rep, failing_query=groups[wit[0]][2])
+                rep = dict(rep, failing_query=viols[wit[0]][2])
         ck.violation(key, what, rep, found)
 
     ck.assumptions += [
